@@ -1,3 +1,4 @@
+import Cirbo.Proofs.BenchTotal
 import Cirbo.Proofs.Convert
 import Cirbo.Proofs.BenchWfs
 /-!
@@ -8,7 +9,9 @@ import Cirbo.Proofs.BenchWfs
 -- OBLIGATION: c14_into_bench_truth_table
 -- OBLIGATION: c14_into_bench_keeps_invariant
 -- OBLIGATION: c14_convert_gate_keeps_invariant
--- PARTIAL: the theorems are partial-correctness (if into_bench returns …); the documented GateDoesntExistError for constants in a circuit without inputs is checked by correspondence. "Helper gates stay inside the blocks of the rewritten gate" is proved in the form needed for the invariant (every block still names existing gates; the helper is appended to exactly the blocks that contain the rewritten gate by `addToBlocks`, which the correspondence compares field by field).
+-- OBLIGATION: c14_into_bench_returns
+-- OBLIGATION: c14_into_bench_no_input_error
+-- PARTIAL: total correctness is proved (c14_into_bench_returns: every well-formed circuit with an input, accepted arities and no gate named like one of this run's helper gates is converted; bt_intoBench_ok_iff shows these conditions are the weakest), and so is the documented GateDoesntExistError for constants in a circuit without inputs (c14_into_bench_no_input_error). "Helper gates stay inside the blocks of the rewritten gate" is proved in the form needed for the invariant (every block still names existing gates; the helper is appended to exactly the blocks that contain the rewritten gate by `addToBlocks`, which the correspondence compares field by field).
 -/
 namespace Cirbo
 open GateType Circuit
@@ -76,5 +79,27 @@ theorem c14_convert_gate_keeps_invariant {c c1 : Circuit} {g : Gate} {k k1 : Nat
 #print axioms c14_into_bench_truth_table
 #print axioms c14_into_bench_keeps_invariant
 #print axioms c14_convert_gate_keeps_invariant
+
+/-- **`into_bench` converts every circuit with at least one input** (total correctness): for a well-formed circuit
+with an input, accepted arities and no gate named like a helper gate this run draws (`bt_drawn`: the labels
+`new_gate_<TYPE>_for_<label><uuid>` of the comparison gates and constants, in storage order), the call returns, the
+result is well formed, has the same inputs and outputs, only bench types, and every valuation extends -/
+theorem c14_into_bench_returns {c : Circuit} {ctr : Nat} (hw : WFS c) (hin : c.inputs ≠ [])
+    (har : ∀ g ∈ c.gates, g.ty ≠ GateType.INPUT → arityOk g.ty g.ops.length = true)
+    (hfr : ∀ l ∈ bt_drawn c.gates ctr, l ∉ c.labels) :
+    ∃ c' ctr', c.intoBench ctr = .ok (c', ctr') ∧ WFS c' ∧
+      ∀ b v, IsValB c b v → ∃ v', IsValB c' b v' ∧ (∀ l ∈ c.labels, v' l = v l) ∧ c'.inputs = c.inputs ∧
+        c'.outputs = c.outputs ∧ NL c' ∧ (∀ g ∈ c'.gates, benchTy g.ty = true) :=
+  bt_intoBench_total_correct hw hin har hfr
+
+/-- the documented refusal: no input and a constant gate -/
+theorem c14_into_bench_no_input_error {c : Circuit} {ctr : Nat} (hw : WFS c) (hin : c.inputs = [])
+    (hconst : ∃ g ∈ c.gates, g.ty = GateType.ALWAYS_TRUE ∨ g.ty = GateType.ALWAYS_FALSE)
+    (har : ∀ g ∈ c.gates, bt_isBin g.ty = true → 2 ≤ g.ops.length)
+    (hfr : ∀ l ∈ bt_drawn c.gates ctr, l ∉ c.labels) :
+    c.intoBench ctr = .error "GateDoesntExistError" := bt_intoBench_noInput_error hw hin hconst har hfr
+
+#print axioms c14_into_bench_returns
+#print axioms c14_into_bench_no_input_error
 
 end Cirbo
